@@ -43,9 +43,14 @@ def run(ck):
                       "each under 9 environments (set, unset, empty values, values containing $ and ~, HOME unset, duplicates, names at the edges of A-Z / 0-9, names of 63/64/200 characters, environ == NULL); "
                       "non-trivial = string containing '$' or '~'")
     ck.assumptions += ["strings and environment entries are NUL-terminated C strings", "realloc grows a block preserving its prefix"]
+    try:
+        import gen_charclass
+        ck.write_generated("CharClass.lean", gen_charclass.generate(REPO, ck.work))
+    except Exception as e:
+        ck.machinery_error("translator gen_charclass failed: %r" % (e,)); return
     if not ck.build_driver(): return
     if not ck.prove():
-        ck.report_proof_failure("theorems about the environment-expansion model no longer build")
+        ck.report_proof_failure("theorems about the environment-expansion model no longer build (the character classes of is_var_name_char / is_path_delim are regenerated on every run)")
     exe = ck.cc("h_c16", ["h_c16.c", os.path.join(REPO, "src/posix/environment_posix.c"), os.path.join(REPO, "src/allocator.c"),
                           os.path.join(REPO, "src/string_view.c")])
     if not exe: return
